@@ -401,6 +401,11 @@ func restoreSectionTTL(rrs []dnsmessage.RR, scratch []uint32) {
 // returning. This preserves the stored RR values while avoiding deep copies on
 // the cold cache-insert path.
 func (c *DnsCache) prepackResponseBeforeStore(qname string, qtype uint16, ttl uint32, now time.Time) error {
+	// Cache deadline as UnixNano for fast comparison (as PrepackResponse does).
+	// Without it the pre-packed fast path and the stale window never apply to
+	// entries created by the regular insert path.
+	c.deadlineNano.Store(c.Deadline.UnixNano())
+
 	var question [1]dnsmessage.Question
 	question[0] = dnsmessage.Question{Name: qname, Qtype: qtype, Qclass: dnsmessage.ClassINET}
 
